@@ -41,6 +41,7 @@ impl C03 {
             sets.push(TitleSet { name: "lexicon-titles<=3w".into(), l, titles: Titles::Words { lex: lex_strings(l), maxw: 3 }, nctx: 3, block: 300 });
             sets.push(TitleSet { name: "lexicon-titles<=2w in a crowd of 25".into(), l, titles: Titles::Words { lex: lex_strings(l), maxw: 2 }, nctx: 4, block: 20 });
             sets.push(TitleSet { name: "lexicon words in a crowd of 120 (limit 120, more than 100 records share the typed prefix)".into(), l, titles: Titles::Words { lex: lex_strings(l), maxw: 1 }, nctx: 5, block: 2 });
+            sets.push(TitleSet { name: "one word per compose / reduce table row of every language, at 4 positions".into(), l, titles: Titles::List(inventory_word_titles(l)), nctx: 2, block: 100 });
             sets.push(TitleSet { name: "long words 19..36 letters".into(), l, titles: Titles::List(long_word_titles(l)), nctx: 4, block: 4 });
             sets.push(TitleSet { name: "function-word prefix pairs: titles<=4w".into(), l, titles: Titles::Words { lex: fw_prefix_lexicon(l), maxw: tier.pick(3, 4) }, nctx: 2, block: 200 });
             sets.push(TitleSet { name: format!("F1<={}", tier.pick(6, 8)), l, titles: Titles::Chars { fam: fam1(l), lo: 0, hi: tier.pick(6, 8) }, nctx: 3, block: 400 });
@@ -88,8 +89,16 @@ fn gen(l: L, _title: &str, tok: &TextOwn, cx: &mut Cx) -> Queries {
                     None => true,
                 };
                 if !ok {
-                    cx.skip_pre();
-                    continue;
+                    // the only legitimate reason: the cut runs next to a free-standing combining mark (the typed
+                    // text then ends in, or the title goes on with, a mark that composes differently once cut off).
+                    // Anywhere else the tokeniser must read a typed prefix of a normalised word as that prefix.
+                    let mark = |c: &char| ('\u{300}'..='\u{36f}').contains(c);
+                    let near_mark = q.chars().any(|c| mark(&c)) || source.iter().any(mark) || chars.iter().any(mark);
+                    if near_mark {
+                        cx.skip_pre();
+                        continue;
+                    }
+                    cx.class("typed-prefix-read-differently");
                 }
                 seen.push(q.clone());
                 out.push((q, kind, k < chars.len() || partial_stem));
